@@ -329,4 +329,33 @@ theorem dictRefs_in_shallow (o : HObj) :
       · exact Or.inl (by simpa [copyVal, refsV] using e)
       · exact Or.inr (ih _ a e)
 
+/-! ### copy histories -/
+
+/-- invariant of a history: the source and every copy taken so far refer into the heap -/
+def CInv (s : CState) : Prop := WF s.heap s.src ∧ ∀ c ∈ s.copies, WF s.heap c
+
+theorem WF_mono {h h' : Heap} {o : HObj} (hle : h.length ≤ h'.length) (hwf : WF h o) : WF h' o :=
+  fun a ha => lt_of_lt_of_le (hwf a ha) hle
+
+theorem CInv_step (s : CState) (op : COp) (hs : CInv s) : CInv (stepC s op) := by
+  obtain ⟨h1, h2⟩ := hs
+  cases op with
+  | copy deep =>
+    obtain ⟨c1, _, _, c4⟩ := copyObj_spec deep s.src s.heap h1
+    refine ⟨WF_mono c1.length_le h1, ?_⟩
+    intro c hc
+    simp only [stepC, List.mem_append, List.mem_singleton] at hc
+    rcases hc with e | e
+    · exact WF_mono c1.length_le (h2 c e)
+    · subst e; exact c4
+  | write a d =>
+    refine ⟨WF_mono (le_of_eq (length_poke _ _ _).symm) h1, ?_⟩
+    intro c hc
+    exact WF_mono (le_of_eq (length_poke _ _ _).symm) (h2 c hc)
+
+theorem CInv_run (ops : List COp) : ∀ (s : CState), CInv s → CInv (runC s ops) := by
+  induction ops with
+  | nil => intro s hs; exact hs
+  | cons op r ih => intro s hs; exact ih _ (CInv_step s op hs)
+
 end StoreCopy
